@@ -678,7 +678,7 @@ def x_abs(a):
 
 
 _SQRT = z3.Function("sqrt", z3.RealSort(), z3.RealSort())
-SQRT_AXIOMS = []  # (term) instances recorded per run; axioms added when proving
+SQRT_DEFINING = False
 
 
 def x_sqrt(a):
@@ -686,7 +686,11 @@ def x_sqrt(a):
     nan = b_or(a.nan, a.is_neg())
     s = _SQRT(a.v)
     c = ctx()
-    c.pc.append(z3.Implies(a.v >= 0, z3.And(s >= 0, s * s == a.v)))
+    # sqrt is uninterpreted: only s >= 0 is assumed by default; the defining equation s*s == x (non-linear) is added
+    # only where a scenario asks for it (SQRT_DEFINING = True)
+    c.pc.append(s >= 0)
+    if SQRT_DEFINING:
+        c.pc.append(z3.Implies(a.v >= 0, s * s == a.v))
     return XR(s, nan, b_and(b_not(nan), a.pinf), False, a.py)
 
 
